@@ -47,6 +47,9 @@ var idSignature = map[string]string{
 	"N14": "background:size-minified-as-position",
 	"N15": "unicode-range:initial-in-list",
 	"N16": "bgpos:zero-removed-from-earlier-layer",
+	"N17": "font:first-word-of-dash-family-quoted",
+	"N18": "dimension:unit-with-non-letter-mangled",
+	"N19": "fusion:plus-sign-removed-inside-function",
 }
 
 func (f *Finding) Signature() string {
@@ -455,6 +458,9 @@ func (c *cmp) decl(a, b *Decl) *Finding {
 			c.st.NJ = append(c.st.NJ, "precision+position-arithmetic")
 			return nil
 		}
+		if strings.HasPrefix(fwhy, fam+":") {
+			fwhy = fwhy[len(fam)+1:]
+		}
 		return mk(fam+":"+fwhy, atomsString(fi)+"  vs  "+atomsString(fo))
 	}
 	c.st.Judged++
@@ -477,7 +483,8 @@ func sameTokens(a, b []Atom) bool {
 				return false
 			}
 		default:
-			if a[i].Nd == nil || b[i].Nd == nil || a[i].Nd.T.Raw != b[i].Nd.T.Raw {
+			// (a hex escape may own one trailing white space character; trimming it at the end of a value is harmless)
+			if a[i].Nd == nil || b[i].Nd == nil || strings.TrimRight(a[i].Nd.T.Raw, " \t\n") != strings.TrimRight(b[i].Nd.T.Raw, " \t\n") {
 				return false
 			}
 		}
